@@ -376,7 +376,7 @@ func verifStubLz4Read(z *lz4.Reader, b []byte) (int, error) {
 }
 
 func verifStubNotBeingWritten(string) bool { return false }
-func verifStubFileName(*os.File) string     { return "f.lz4" }
+func verifStubFileName(*os.File) string    { return "f.lz4" }
 
 // C06.H3 / C03: a compressed file resumed from a saved offset: every complete line that ends after
 // the saved offset is handed over exactly once with its end offset; nothing torn is handed over
